@@ -141,6 +141,7 @@ pub fn make_case(seed: u64, _tier: Tier, idx: u64) -> Case {
                 }
             }
         }
+        crate::model::vary_member_names(&mut m, &mut rng);
         // long records: fieldsets with 8-14 positions (index suffixes with two digits, many
         // fields of the same type), appended as extra nonterminals reachable from the start
         if rng.chance(0.35) && !m.terms.is_empty() && m.terms.len() + m.nts.len() < 20 {
@@ -391,12 +392,19 @@ pub fn make_inputs(cfg: &Cfg, rng: &mut Rng, tier: Tier, budget: usize, sentence
     }
     // W5: long sentences
     if an.productive[cfg.start] {
-        let lens: &[usize] = tier.pick(&[500usize, 2500], &[300usize, 1000, 3000, 5000]);
+        let base_lens: &[usize] = tier.pick(&[500usize, 2500], &[300usize, 1000, 3000, 5000]);
+        let mut lens: Vec<usize> = base_lens.to_vec();
+        // now and then an input that crosses 2^16 tokens (stack depth, positions, counters of the
+        // emitted parser)
+        let very_long = if force_long { rng.chance(0.25) } else { rng.chance(tier.pick(0.01, 0.02)) };
+        if very_long {
+            lens.push(*rng.pick(&[65_530usize, 65_540, 70_000]));
+        }
         for t in lens.iter().copied() {
-            if force_long || rng.chance(tier.pick(0.3, 0.5)) {
-                let monotone = force_long || rng.chance(0.6);
+            if t > 60_000 || force_long || rng.chance(tier.pick(0.3, 0.5)) {
+                let monotone = t > 60_000 || force_long || rng.chance(0.6);
                 if let Some(s) = gen::random_sentence_mode(cfg, &an, rng, t, monotone) {
-                    if s.len() <= 6000 && !s.is_empty() {
+                    if s.len() <= t + t / 5 + 1000 && !s.is_empty() {
                         let mut broken = s.clone();
                         out.push((s, "W5"));
                         // and a long input with an error deep inside
@@ -423,7 +431,22 @@ enum Expect {
 }
 
 impl EmitRun {
+    /// Every case runs on a thread with a large stack: the reference trees of inputs with tens of
+    /// thousands of tokens are as deep as the input is long (rendering and dropping them recurses).
     fn run(&self, w: &mut Worker, idx: u64) {
+        let r = std::thread::scope(|s| {
+            std::thread::Builder::new()
+                .stack_size(2 << 30)
+                .spawn_scoped(s, || self.run_on_big_stack(w, idx))
+                .expect("spawn case thread")
+                .join()
+        });
+        if let Err(p) = r {
+            std::panic::resume_unwind(p);
+        }
+    }
+
+    fn run_on_big_stack(&self, w: &mut Worker, idx: u64) {
         let c = make_case(w.seed, w.tier, idx);
         let prop = w.prop.clone();
         let mut rng = Rng::for_case(w.seed, "emit-run-inputs", idx);
